@@ -1,6 +1,7 @@
 import SaVerif.Gen.Lifecycle
 import SaVerif.Model.Sess
 import SaVerif.Lemmas.Sess
+import SaVerif.Lemmas.SessNP
 /-!
 # C35 — object lifecycle states and events follow the documented state machine
 
@@ -11,9 +12,9 @@ import SaVerif.Lemmas.Sess
   `_detach_states`, `_remove_newly_deleted`, `_update_impl(revert_deletion)`), for
   EVERY session state: called on an instance in the documented source state they
   perform exactly the documented transition and log exactly its event.
-* §3 whole operations that do not flush (`add`, `expunge`, `expunge_all`/`close`),
-  for every well-formed session state: every instance moves along the chain of
-  the events logged for it.
+* §3 for EVERY history of operations, every member of `session.new` is a pending
+  instance (`new_members_are_pending`, induction over the history; one preservation
+  lemma per transcribed function in `Lemmas/SessNP.lean`).
 * §4 the full statement ("for every history the logged events replay to the
   actual state of every instance") is FALSE for the code as it is: concrete
   witnesses (`*_counterexample`), each replayed on the real Session as a known
@@ -177,6 +178,44 @@ theorem removeNewlyDeletedOne_spec (σ : Sess) (o : Oid) (ho : o < σ.objs.lengt
       simp [updTxn, imSafeDiscard]
       repeat (first | split | rfl)
 
+
+/-! ## §3 whole histories: `session.new` holds pending instances only -/
+
+/-- **new_members_are_pending**: after ANY history of operations (add, delete, flush incl.
+    failures, commit, rollback, savepoints, expunge, close, merge, get, queries, refresh,
+    primary-key changes, make_transient*) every member of `session.new` is an instance without
+    identity key that is attached to the session — by induction over the history, every
+    transcribed function preserving the invariant (`Lemmas/SessNP.lean`). -/
+theorem new_members_are_pending (eoc : Bool) (ops : List Op) : NP (run eoc ops) := by
+  unfold run
+  have : ∀ (l : List Op) (σ : Sess), NP σ →
+      NP (l.foldl (fun σ op => if opValid σ op then (step σ op).1.1 else σ) σ) := by
+    intro l
+    induction l with
+    | nil => intro σ h; exact h
+    | cons op t ih =>
+      intro σ h
+      apply ih
+      show NP (if opValid σ op = true then (step σ op).1.1 else σ)
+      split
+      · rename_i hv; exact NP_step _ _ hv h
+      · exact h
+  apply this
+  intro o ho; cases ho
+
+/-- in terms of the regenerated flag formulas: every member of `session.new` answers
+    `inspect(obj).pending == True` (and, by `exactly_one_state`, no other state) -/
+theorem new_members_flag_pending (eoc : Bool) (ops : List Op) (o : Oid) (h : o ∈ (run eoc ops).new) :
+    pending (getO (run eoc ops) o).key.isSome (getO (run eoc ops) o).att (getO (run eoc ops) o).del = true ∧
+    ls (getO (run eoc ops) o) = .P := by
+  have := new_members_are_pending eoc ops o h
+  unfold Pend at this
+  have hk : (getO (run eoc ops) o).key.isSome = false := by rw [this.1]; rfl
+  constructor
+  · rw [hk, this.2]; cases (getO (run eoc ops) o).del <;> decide
+  · unfold ls; rw [hk, this.2]; cases (getO (run eoc ops) o).del <;> decide
+
+example : (run true [.new 1, .new 2, .add 0, .add 1, .flush, .new 3, .add 2]).new = [2] := by decide
 
 /-! ## §4 whole histories: the full statement and its counterexamples -/
 
